@@ -38,6 +38,8 @@ type PathResult struct {
 }
 
 type Machine struct {
+	byteOrigin map[*Term]byteOrig // byte terms produced by runeBytes: which byte of which rune
+	pseudoOf   map[*Term]*Term    // lone-byte pseudo-rune -> its byte term
 	prog    *Program
 	ctx     *Ctx
 	solver  *Solver
